@@ -528,7 +528,7 @@ def ob_e(ob):
                 claims.append(("%s at %s" % (name, val), z3.substitute(got, *sub) == z3.substitute(want, *sub)))
         for name, cl in claims:
             lab = "e:%s" % name
-            v, m = smt.prove(cl, base, lab, "nra", 90 if ob.tier != "thorough" else 900)
+            v, m = smt.prove(cl, base, lab, "nra", 90 if ob.tier != "thorough" else 240)
             if v == "sat":
                 vv = [float(smt.model_value(m, x)) for x in V]
                 if replay_rotate_core(vv):
